@@ -29,6 +29,12 @@ def finding_programs():
     # C03-escaping-export-to: the escaped file imports a file inside the base directory
     progs.append(("C03-escaping-export-to", {"items": [leaf("XL"), {"kind": "struct", "name": "XE", "shape": "named", "attrs": {"export_to": "../up/"}, "generics": [],
                   "fields": [{"name": "l", "ty": N("XL"), "attrs": {}}]}], "probes": [{"ty": N("XE"), "values": []}]}))
+    # C03-double-ts-extension: the importing file is `ds.ts.ts`, the dependency lives in its sibling `ds.ts`; `import_path` gives `./ds`
+    # (a good specifier) and the `is_same_file` test of generate_imports, which strips `.ts` REPEATEDLY from the file name, drops it
+    # (Lean: C03_cex_same_file_stem)
+    sl = leaf("SL"); sl["attrs"] = {"export_to": "ds.ts"}
+    progs.append(("C03-double-ts-extension", {"items": [sl, {"kind": "struct", "name": "SU", "shape": "named", "attrs": {"export_to": "ds.ts.ts"}, "generics": [],
+                  "fields": [{"name": "l", "ty": N("SL"), "attrs": {}}]}], "probes": [{"ty": N("SU"), "values": []}]}))
     return progs
 
 
